@@ -339,6 +339,19 @@ public:
   }
 };
 
+/// Compute the hash identifying the definition of a command: its command line
+/// and its declared inputs (a changed input list must re-run the command even
+/// when the command line does not mention the new input).
+static CommandSignature getCommandHash(const ninja::Command* command) {
+  CommandSignature hash(command->getCommandString());
+  hash = hash.combine(uint64_t(command->getNumExplicitInputs()));
+  hash = hash.combine(uint64_t(command->getNumImplicitInputs()));
+  for (const auto* input: command->getInputs()) {
+    hash = hash.combine(input->getCanonicalPath());
+  }
+  return hash;
+}
+
 struct NinjaBuildEngineDelegate : public core::BuildEngineDelegate {
   std::string workingDirectory;
   class BuildContext* context = nullptr;
@@ -1141,7 +1154,7 @@ buildCommand(BuildContext& context, ninja::Command* command) {
       //
       // FIXME: Is it right to bring this up-to-date when one of the inputs
       // indicated a failure? It probably doesn't matter.
-      auto commandHash = CommandSignature(command->getCommandString());
+      auto commandHash = getCommandHash(command);
       if (command->getRule() == context.manifest->getPhonyRule()) {
         // Get the result.
         BuildValue result = computeCommandResult(commandHash);
@@ -1365,7 +1378,7 @@ buildCommand(BuildContext& context, ninja::Command* command) {
           //
           // We always restat the output, but we honor Ninja's restat flag by
           // forcing downstream propagation if it isn't set.
-          auto commandHash = CommandSignature(command->getCommandString());
+          auto commandHash = getCommandHash(command);
           BuildValue resultValue = computeCommandResult(commandHash);
 
           // Remove response file.
@@ -1627,8 +1640,7 @@ static bool buildCommandIsResultValid(ninja::Command* command,
 
   // For non-generator commands, if the command hash has changed, recompute.
   if (!command->hasGeneratorFlag()) {
-    if (value.getCommandHash() != CommandSignature(
-          command->getCommandString()))
+    if (value.getCommandHash() != getCommandHash(command))
       return false;
   }
 
@@ -1661,7 +1673,7 @@ static bool selectCompositeIsResultValid(ninja::Command* command,
   // If the command's signature has changed since it was built, rebuild. This is
   // important for ensuring that we properly reevaluate the select rule when
   // it's incoming composite rule no longer exists.
-  if (value.getCommandHash() != CommandSignature(command->getCommandString()))
+  if (value.getCommandHash() != getCommandHash(command))
     return false;
 
   // Otherwise, this result is always valid.
